@@ -1,6 +1,7 @@
 import O4.Lemmas.ServerAccept
 import O4.Props.C03
 import O4.Generated.Facts.Replayfilter
+import O4.Generated.Facts.Obfs4
 /-!
 # C04 — obfs4 accepts each client handshake once, within ±1 hour of the server clock
 
@@ -309,6 +310,22 @@ theorem filter_clock_read_at_submission :
     "time.Now" ∈ O4.Facts.Replayfilter.ReplayFilter_TestAndSetNow_calls ∧
     "f.testAndSet" ∈ O4.Facts.Replayfilter.ReplayFilter_TestAndSetNow_calls ∧
     O4.Facts.Replayfilter.ReplayFilter_testAndSet_fields ⊆ O4.Facts.Replayfilter.ReplayFilter_TestAndSetNow_fields := by
+  decide
+
+
+/-- **structural fact, regenerated from the Go source on every run (go/ast)**: every package-level
+    variable (file-scope `var`) of the packages this property's mechanisms live in
+    (transports/obfs4, common/replayfilter) is one of the names below — error values, fixed byte strings,
+    flags and function hooks that the code only reads after initialisation.  The models treat all
+    other state as owned by one connection / one object; a NEW package-level variable (a cache, a
+    pool, a scratch buffer, a pre-keyed hash shared "to save allocations") is how such state comes
+    to be shared between connections and goroutines, which compiles, passes the tests and typically
+    needs true parallelism or a multi-connection history to misbehave.  Adding one breaks this
+    theorem; the concurrent / multi-connection families of the harness then search for the failing
+    schedule. -/
+theorem no_new_package_level_state :
+    O4.Facts.Obfs4.pkg_vars ⊆ ["ErrInvalidHandshake", "ErrMarkNotFoundYet", "ErrNtorFailed", "ErrReplayedHandshake", "biasedDist", "zeroPadBytes"] ∧
+    O4.Facts.Replayfilter.pkg_vars ⊆ [] := by
   decide
 
 end C04
